@@ -352,7 +352,8 @@ MANIFEST = {
             "tensor's shape and element count, whatever mixture of broadcasting, where-masks, views and repeated "
             "use produced it (stored_grads_have_tensor_shape, by induction over the loop). The implementation is "
             "compared with the model on random programs, and the three seeding identities and the "
-            "shape/dtype/type predicate are evaluated directly on MyGrad, including 0-d tensors, float16/32 and "
+            "shape/dtype/type predicate are evaluated directly on MyGrad, including 0-d tensors, float16/32, mixed "
+            "precision (operands alternating float64/float32; a 0-d float64 tensor receiving float32 gradients) and "
             "the nnet layers and losses.",
     "note": "Trusted: Lean kernel, standard axioms, the correspondence harness. dtype is not part of the Int-valued model: the "
             "dtype clause is decided by the direct predicate only. Ops that override Operation.backward (GRU) are outside the "
